@@ -469,6 +469,9 @@ def run(ctx):
     ctx.rule = "obligation = MIR event in a reachable /repo instance (per monomorphic instance); distinct by (function, construct)"
     ctx.trusted = ["arbitrary 1.4.2: Unstructured::bytes(n) returns exactly n bytes or Err, peek_bytes does not consume, arbitrary_loop honours max, int_in_range(a..=b) returns a value in a..=b, choose_index(len) returns an index below len (Err for len == 0), derive(Arbitrary) expansion",
                    "heapless 0.7.17 / heapless-bytes 0.3.0 capacity checks", "serde_bytes 0.11.19 ByteArray layout (repr read from its ADT)"]
+    # "dispatched without fault" with logging compiled in as well: the log statements of the two dispatchers have total arguments
+    from . import logargs
+    logargs.check(ctx, "C19", roots=["ctap2::Authenticator::call_ctap2", "ctap1::Authenticator::call_ctap1"], min_statements=2)
     for cfg, F in ctx.facts.items():
         roots = [r for r in F.mono["roots"] if "inst" in r and r["spec"].endswith("::arbitrary") and "impl arbitrary::Arbitrary<" in r["spec"]
                  and any((" for " + t) in r["spec"] for t in ROOT_TYPES)]
